@@ -90,7 +90,7 @@ Definition flush_as (x : name) : list event := EWrite :: EFlush x false :: repea
    stay in sst/ until the reader lets go, then move to the trash *)
 Definition ex_held : list event :=
   open_fresh ++ flush_as 10 ++ flush_as 11 ++ [ETake 0; EStep (T_READER 0)]
-  ++ ECompact [10; 11] [12] false true :: repeat (EStep T_COMPACT) 8.
+  ++ ECompact 0 [10; 11] [12] false true :: repeat (EStep (T_COMPACT 0)) 8.
 Example C08_example_snapshot_keeps_files :
   f_sst (s_fs (run sys0 ex_held)) = [10; 11; 12] /\ live_strs (run sys0 ex_held) = [12] /\
   f_trash (s_fs (run sys0 (ex_held ++ EDrop 0 :: repeat (EStep (T_READER 0)) 3))) = [10; 11].
@@ -110,7 +110,7 @@ Proof. vm_compute. repeat split; reflexivity. Qed.
    unlinked anything yet; a compaction re-creates 10 *)
 Definition ex_pending : list event :=
   ex_held ++ EDrop 0 :: repeat (EStep (T_READER 0)) 3 ++ reopen ++ reopen ++ [EVBegin; EVStep true; EVStep true].
-Definition ex_readd : list event := ex_pending ++ ECompact [12] [10; 13] false false :: repeat (EStep T_COMPACT) 3.
+Definition ex_readd : list event := ex_pending ++ ECompact 0 [12] [10; 13] false false :: repeat (EStep (T_COMPACT 0)) 3.
 
 Theorem C08_verifier_unlinks_verified_incarnation_refuted : exists evs, ~ pending_not_readded (run sys0 evs).
 Proof.
